@@ -599,3 +599,10 @@ func (p *typedWritesPackage) WriteTo(ch tds.BytesChannel) error {
 	}
 	return nil
 }
+
+// rule addenda (rounds 9-12): what the evidence says about the coverage of a run
+func init() {
+	if p := registry["C01"]; p != nil {
+		p.Rule += " Since round 12 a third of the packages is written through a package type of the harness that uses the typed writers of the BytesChannel field by field (WriteByte / WriteUint8 / WriteInt8 for one-byte fields incl. the last byte, WriteUint16 / WriteInt32 / WriteUint64, WriteString, WriteBytes); one package buffer is reused for all packages of a line."
+	}
+}
